@@ -3,6 +3,8 @@ package main
 // Evaluation of contract expressions over symbolic states.
 
 import (
+	"os"
+	"runtime/debug"
 	"fmt"
 	"go/constant"
 	"go/types"
@@ -237,6 +239,9 @@ func (x *Exec) evalIdent(ctx *SpecCtx, name string) Value {
 			}
 		}
 	}
+	if os.Getenv("GVC_DEBUG") != "" {
+		debug.PrintStack()
+	}
 	specFail("unknown identifier %q", name)
 	return nil
 }
@@ -345,11 +350,23 @@ func (x *Exec) evalBinary(ctx *SpecCtx, e *Expr) Value {
 	b := x.b
 	switch e.Name {
 	case "&&":
-		return b.And(x.evalBool(ctx, e.Args[0]), x.evalBool(ctx, e.Args[1]))
+		l := x.evalBool(ctx, e.Args[0])
+		if l.IsFalse() {
+			return l // short circuit: the right side may mention names that do not exist here (defined())
+		}
+		return b.And(l, x.evalBool(ctx, e.Args[1]))
 	case "||":
-		return b.Or(x.evalBool(ctx, e.Args[0]), x.evalBool(ctx, e.Args[1]))
+		l := x.evalBool(ctx, e.Args[0])
+		if l.IsTrue() {
+			return l
+		}
+		return b.Or(l, x.evalBool(ctx, e.Args[1]))
 	case "==>":
-		return b.Implies(x.evalBool(ctx, e.Args[0]), x.evalBool(ctx, e.Args[1]))
+		l := x.evalBool(ctx, e.Args[0])
+		if l.IsFalse() {
+			return b.True()
+		}
+		return b.Implies(l, x.evalBool(ctx, e.Args[1]))
 	case "<==>":
 		return b.Eq(x.evalBool(ctx, e.Args[0]), x.evalBool(ctx, e.Args[1]))
 	case "==", "!=":
@@ -758,6 +775,17 @@ func (x *Exec) evalCall(ctx *SpecCtx, e *Expr) Value {
 			specFail("upd() needs an array term in %s", e.String())
 		}
 		return b.Store(a, x.evalInt(ctx, e.Args[1]), x.evalInt(ctx, e.Args[2]))
+	case "defined":
+		// defined(x): the local variable x has a value on this path (assert at return, early returns)
+		need(1)
+		if e.Args[0].Kind != "ident" {
+			specFail("defined(name)")
+		}
+		if ctx.fr == nil {
+			return b.Bool(false)
+		}
+		_, ok := x.lookupLocal(ctx.st, ctx.fr, e.Args[0].Name)
+		return b.Bool(ok)
 	case "state":
 		// state(): the memory as it is now (bind it with "let"/"loop N let", compare with unchanged)
 		need(0)
